@@ -192,6 +192,11 @@ func (ex *Exec) pickNext(except *Thread, blocking bool) *Thread {
 			cands = cands[:1]
 			nReg = 1
 		}
+		if nReg > 0 && ex.hctx["eagerTimers"] != true {
+			// time passes only when every goroutine is blocked (harness timeouts are generous);
+			// vTimersEager(true) lets timers race with runnable goroutines
+			evs = nil
+		}
 		n := nReg + len(evs)
 		if !blocking {
 			// voluntary yield: environment events are not offered
